@@ -17,9 +17,15 @@ RING_LIMIT = 64
 
 
 def cachemod():
+    """cacheutils with its lock class replaced by the cooperative equivalent *of the kind the module chose*: a
+    re-entrant lock for threading.RLock, a plain one for threading.Lock (so that a lost re-entrancy shows as the
+    self-deadlock it is)."""
+    import _thread
     from boltons import cacheutils
-    if cacheutils.RLock is not schedules.CoopRLock:
-        cacheutils.RLock = schedules.CoopRLock
+    cur = cacheutils.RLock
+    if cur not in (schedules.CoopRLock, schedules.CoopLock):
+        plain = cur in (threading.Lock, _thread.allocate_lock, getattr(_thread, 'LockType', None))
+        cacheutils.RLock = schedules.CoopLock if plain else schedules.CoopRLock
     return cacheutils
 
 
@@ -293,7 +299,16 @@ def explore_program(task):
     threading.stack_size(16 * 1024 * 1024)
     cu = cachemod()
     filename = cu.__file__
-    serial = serial_outcomes(cfg, program)
+    try:
+        serial = serial_outcomes(cfg, program)
+    except Exception as e:
+        # not even the sequential runs work (e.g. a lock that is no longer re-entrant): that is the violation
+        sig = 'C03|prog:%s|sequential execution raises %s' % (prog_name(program), type(e).__name__)
+        case = {'config': cfg, 'program': [[list(o) for o in ops] for ops in program], 'schedule': [], 'reduce': reduce}
+        return {'program': prog_name(program), 'stats': {'executions': 0, 'points': 0, 'steps': 0, 'max_points': 0,
+                                                         'capped': False, 'replayed': 0, 'by_preemptions': {}},
+                'outcomes': 0, 'serial': 0, 'viols': {sig: [case, 'the operations run sequentially', repr(e), 1]},
+                'nontrivial': 0}
     viols = {}
     seen_outcomes = set()
     nontrivial = [0]
